@@ -1030,6 +1030,19 @@ def run_C11(ctx):
               {'t': 'axis', 'dt': [0.1, 'sec'], 'T': [0.3, 'sec'], 'literal': True},
               {'t': 'axis', 'dt': [1000.0, 'ms'], 'T': [5000.0, 'ms'], 'literal': True, 'first': {'dt': [1.0, 'sec'], 'T': [5.0, 'sec']}},
               {'t': 'axis', 'dt': [0.5, 'min'], 'T': [2.0, 'min'], 'literal': True, 'first': {'dt': [1.0, 'sec'], 'T': [60.0, 'sec']}}]
+    # a long coarse run continued with a very fine time step (previous final time / dt beyond 1e7): the number of appended
+    # instants is T/dt whatever the instant the continuation starts from
+    for _ in range(ctx.budget(12, 200)):
+        big = rng.choice([[1.0, 'hour'], [50.0, 'min'], [2.5, 'hour'], [1000.0, 'sec']])
+        nb = rng.randint(2, 4)
+        m = rng.choice([1, 3, 7, 9, 11, 13])
+        n = rng.randint(3, 40)
+        u = rng.choice(['ms', 'ms', 'sec'])
+        dt_ms = m / 10.0
+        dt = [dt_ms, 'ms'] if u == 'ms' else [float(F(m, 10000)), 'sec']
+        T = [float(F(m * n, 10)), 'ms'] if u == 'ms' else [float(F(m * n, 10000)), 'sec']
+        cases_fine = {'t': 'axis', 'dt': dt, 'T': T, 'literal': True, 'first': {'dt': big, 'T': [big[0] * nb, big[1]]}}
+        eval_axis(ctx, [cases_fine])
     for i in range(0, len(cases), 500):
         eval_axis(ctx, cases[i:i + 500])
     # the axis of complete simulations (with stop conditions) as well
@@ -1355,7 +1368,12 @@ def run_C16(ctx):
         r = rng.random()
         if r < 0.25:
             # the same StopCondition object reused after reset and re-applied initial conditions
-            spec['ops'] = [op, {'op': 'reset'}, {'op': 'init', 'pos': spec['init']['pos'], 'speed': spec['init']['speed']}, dict(op)]
+            init2 = {'op': 'init', 'pos': spec['init']['pos'], 'speed': spec['init']['speed']}
+            if rng.random() < 0.5 and spec['init'].get('pos_kind') is None:
+                # ... given in other units this time (the readings of the second simulation carry those units)
+                init2 = {'op': 'init', 'pos': gen.in_unit(rng, 'AngularPosition', float(F(spec['init']['pos'][0]) * SI['AngularPosition'][spec['init']['pos'][1]]), True),
+                         'speed': gen.in_unit(rng, 'AngularSpeed', float(F(spec['init']['speed'][0]) * SI['AngularSpeed'][spec['init']['speed'][1]]), True)}
+            spec['ops'] = [op, {'op': 'reset'}, init2, dict(op)]
         elif r < 0.4:
             # ... or for a continuation
             op2, _, _ = gen.run_op(rng, dt_si=dt, steps=(2, 5), unit='sec')
